@@ -2,14 +2,15 @@ package props
 
 import (
 	"bufio"
-	"os"
-	"os/exec"
-	"sync"
 	"context"
 	"fmt"
+	"os"
+	"os/exec"
+	"runtime/debug"
 	"sort"
 	"strconv"
 	"strings"
+	"sync"
 	"sync/atomic"
 	"time"
 
@@ -228,6 +229,12 @@ func c05Check(u univ.Universe, withOrders bool) (fails []string, resolves int) {
 
 // c05Schedules explores all interleavings (preemption bound) of threads resolving roots on a shared client.
 func c05Schedules(u univ.Universe, roots [][2]string, bound int, stop func() bool) (fails []string, st sched.Stats, outcomes map[string]bool) {
+	return c05SchedulesW(u, roots, bound, false, stop)
+}
+
+// c05SchedulesW: with warm, one Resolve of the first root is completed on the shared client/resolver before the
+// threads start (a history followed by concurrency: state left behind by an earlier call is then shared).
+func c05SchedulesW(u univ.Universe, roots [][2]string, bound int, warm bool, stop func() bool) (fails []string, st sched.Stats, outcomes map[string]bool) {
 	ref := make([]string, len(roots))
 	for i, r := range roots {
 		lc := u.Client(nil)
@@ -244,6 +251,13 @@ func c05Schedules(u univ.Universe, roots [][2]string, bound int, stop func() boo
 		var shared resolve.Resolver
 		if u.Sys != "PyPI" {
 			shared = newResolver(u.Sys, yc)
+		}
+		if warm {
+			wr := shared
+			if wr == nil {
+				wr = newResolver(u.Sys, yc)
+			}
+			wr.Resolve(ctxBG, u.VK(roots[0][0], roots[0][1]))
 		}
 		results := make([]string, len(roots))
 		bodies := make([]func(), len(roots))
@@ -299,6 +313,7 @@ func intsToString(a []int) string {
 func C05(tier string) {
 	run := core.NewRun("C05", tier, c05Replay)
 	quick := tier == "quick"
+	debug.SetGCPercent(800) // each fresh PyPI resolver allocates 30 000 cache slots; collect less often
 	seqDev, schedDev, bound := 2, 2, 2
 	if quick {
 		run.SetBudget(150 * time.Second)
@@ -308,8 +323,79 @@ func C05(tier string) {
 	}
 	run.Cov["rule"] = "universes = all deviation sets (requirement slots over a requirement alphabet + decorations) up to the bound from the npm/Maven/PyPI bases of DESIGN §6.6; per universe: every version as root resolved on a fresh client (reference), twice on one client/resolver, every ordered pair of roots and every triple of roots-with-requirements as a history on one client/resolver, a second resolver on a used client, insertion orders (reversal, every adjacent transposition, rotation); byte-exact snapshot of everything the client reports before/after every Resolve; E3: all interleavings with <= bound preemptions (scenarios whose default schedule exceeds 150 scheduling points run that schedule only and are counted) of 2 threads (quick) resolving roots on one shared client (scheduling point at every client call; npm/Maven share one resolver, PyPI one per thread)"
 	var universes, resolves, schedules, points, nontrivial int64
+	type e3Result struct {
+		s0, p0, scen, deadlocks, outcomes, tooLarge int64
+		complete                                    bool
+	}
+	e3ch := map[string]chan e3Result{}
+	for _, sp := range univ.AllSpaces() {
+		sp := sp
+		ch := make(chan e3Result, 1)
+		e3ch[sp.Name+"/"+sp.Base] = ch
+		go func() {
+			// E3: schedule exploration, sharded over worker processes (the controlled scheduler is process-global)
+			var s0, p0, scen, deadlocks, outcomeCount, tooLarge int64
+			complete := true
+			{
+				self, _ := os.Executable()
+				nsh := 4
+				type shardOut struct {
+					lines []string
+					err   error
+				}
+				outs := make([]shardOut, nsh)
+				var wg sync.WaitGroup
+				for sh := 0; sh < nsh; sh++ {
+					wg.Add(1)
+					go func(sh int) {
+						defer wg.Done()
+						remaining := time.Until(run.Deadline())
+						if remaining < 5*time.Second {
+							remaining = 5 * time.Second
+						}
+						cmd := exec.Command(self, "C05", "--sched", sp.Name+"/"+sp.Base, strconv.Itoa(schedDevFor(sp, quick, schedDev)), strconv.Itoa(boundFor(sp.Name, quick, bound)), strconv.FormatBool(quick), strconv.Itoa(sh), strconv.Itoa(nsh), strconv.FormatInt(int64(remaining/time.Second), 10))
+						cmd.Env = append(os.Environ(), "GOMAXPROCS=2")
+						b, err := cmd.Output()
+						outs[sh] = shardOut{strings.Split(string(b), "\n"), err}
+					}(sh)
+				}
+				wg.Wait()
+				for sh, o := range outs {
+					done := false
+					for _, line := range o.lines {
+						f := strings.SplitN(line, "\t", 3)
+						switch f[0] {
+						case "F":
+							w, _ := strconv.Unquote(f[1])
+							d, _ := strconv.Unquote(f[2])
+							run.Fail(w, d)
+						case "S":
+							var a [7]int64
+							fmt.Sscanf(f[1], "%d %d %d %d %d %d %d", &a[0], &a[1], &a[2], &a[3], &a[4], &a[5], &a[6])
+							tooLarge += a[6]
+							scen += a[0]
+							s0 += a[1]
+							p0 += a[2]
+							deadlocks += a[3]
+							outcomeCount += a[4]
+							if a[5] == 0 {
+								complete = false
+							}
+							done = true
+						case "H":
+							core.Harness("C05 schedule worker: %s", line)
+						}
+					}
+					if !done {
+						core.Harness("C05 schedule worker %d/%d for %s ended without a summary: %v", sh, nsh, sp.Name, o.err)
+					}
+				}
+			}
+			ch <- e3Result{s0, p0, scen, deadlocks, outcomeCount, tooLarge, complete}
+		}()
+	}
 	per := map[string]any{}
-	for _, sp := range []*univ.Space{univ.NPMSpace(), univ.MavenSpace(), univ.PyPISpace()} {
+	for _, sp := range univ.AllSpaces() {
 		var batch []univ.Universe
 		var sampleU univ.Universe
 		var u0, r0, nt0 int64
@@ -325,7 +411,11 @@ func C05(tier string) {
 			batch = batch[:0]
 		}
 		stopped := false
-		univ.Enumerate(sp.Slots, seqDev, func(picks []univ.Pick) {
+		sd := seqDev
+		if sp.Base != "empty" {
+			sd-- // a template already carries five requirements
+		}
+		univ.Enumerate(sp.Slots, sd, func(picks []univ.Pick) {
 			if stopped {
 				return
 			}
@@ -343,7 +433,7 @@ func C05(tier string) {
 			batch = append(batch, u)
 			if len(batch) >= 4096 {
 				flush()
-				if run.OutOfTime("C05 "+sp.Name+" sequential") || run.Violations() > 300 {
+				if run.OutOfTime("C05 "+sp.Name+"/"+sp.Base+" sequential") || run.Violations() > 300 {
 					stopped = true
 				}
 			}
@@ -352,74 +442,18 @@ func C05(tier string) {
 		universes += u0
 		resolves += r0
 		nontrivial += nt0
-		// E3: schedule exploration, sharded over worker processes (the controlled scheduler is process-global)
-		var s0, p0, scen, deadlocks, outcomeCount, tooLarge int64
-		complete := true
-		{
-			self, _ := os.Executable()
-			nsh := core.Workers
-			type shardOut struct {
-				lines []string
-				err   error
-			}
-			outs := make([]shardOut, nsh)
-			var wg sync.WaitGroup
-			for sh := 0; sh < nsh; sh++ {
-				wg.Add(1)
-				go func(sh int) {
-					defer wg.Done()
-					remaining := time.Until(run.Deadline())
-					if remaining < 5*time.Second {
-						remaining = 5 * time.Second
-					}
-					cmd := exec.Command(self, "C05", "--sched", sp.Name, strconv.Itoa(schedDevFor(sp.Name, quick, schedDev)), strconv.Itoa(boundFor(sp.Name, quick, bound)), strconv.FormatBool(quick), strconv.Itoa(sh), strconv.Itoa(nsh), strconv.FormatInt(int64(remaining/time.Second), 10))
-					cmd.Env = append(os.Environ(), "GOMAXPROCS=2")
-					b, err := cmd.Output()
-					outs[sh] = shardOut{strings.Split(string(b), "\n"), err}
-				}(sh)
-			}
-			wg.Wait()
-			for sh, o := range outs {
-				done := false
-				for _, line := range o.lines {
-					f := strings.SplitN(line, "\t", 3)
-					switch f[0] {
-					case "F":
-						w, _ := strconv.Unquote(f[1])
-						d, _ := strconv.Unquote(f[2])
-						run.Fail(w, d)
-					case "S":
-						var a [7]int64
-						fmt.Sscanf(f[1], "%d %d %d %d %d %d %d", &a[0], &a[1], &a[2], &a[3], &a[4], &a[5], &a[6])
-						tooLarge += a[6]
-						scen += a[0]
-						s0 += a[1]
-						p0 += a[2]
-						deadlocks += a[3]
-						outcomeCount += a[4]
-						if a[5] == 0 {
-							complete = false
-						}
-						done = true
-					case "H":
-						core.Harness("C05 schedule worker: %s", line)
-					}
-				}
-				if !done {
-					core.Harness("C05 schedule worker %d/%d for %s ended without a summary: %v", sh, nsh, sp.Name, o.err)
-				}
-			}
-		}
+		e3 := <-e3ch[sp.Name+"/"+sp.Base]
+		s0, p0, scen, deadlocks, outcomeCount, tooLarge, complete := e3.s0, e3.p0, e3.scen, e3.deadlocks, e3.outcomes, e3.tooLarge, e3.complete
 		schedules += s0
 		points += p0
-		per[sp.Name] = map[string]any{"universes": u0, "resolves": r0, "sequential_completed": !stopped, "schedule_scenarios": scen, "schedules": s0, "scheduling_points": p0,
-			"preemption_bound": boundFor(sp.Name, quick, bound), "schedule_universe_deviations": schedDevFor(sp.Name, quick, schedDev), "schedule_exploration_complete": complete, "distinct_interleaving_outcomes": outcomeCount, "deadlocks": deadlocks, "scenarios_over_150_points_default_schedule_only": tooLarge}
+		per[sp.Name+"/"+sp.Base] = map[string]any{"universes": u0, "resolves": r0, "sequential_completed": !stopped, "schedule_scenarios": scen, "schedules": s0, "scheduling_points": p0,
+			"preemption_bound": boundFor(sp.Name, quick, bound), "schedule_universe_deviations": schedDevFor(sp, quick, schedDev), "sequential_universe_deviations": sd, "schedule_exploration_complete": complete, "distinct_interleaving_outcomes": outcomeCount, "deadlocks": deadlocks, "scenarios_over_150_points_default_schedule_only": tooLarge}
 		if !complete || stopped {
-			run.Cap(sp.Name + ": not all universes/schedules within the bound were explored in the time budget")
+			run.Cap(sp.Name + "/" + sp.Base + ": not all universes/schedules within the bound were explored in the time budget")
 		}
-		run.Outcome(fmt.Sprintf("%s:%d", sp.Name, u0))
+		run.Outcome(fmt.Sprintf("%s/%s:%d", sp.Name, sp.Base, u0))
 		if len(sampleU.Vers) > 0 {
-			run.Sample(map[string]any{"system": sp.Name, "universe": sampleU})
+			run.Sample(map[string]any{"system": sp.Name, "base": sp.Base, "universe": sampleU})
 		}
 	}
 	run.Cov["states"] = universes
@@ -436,8 +470,14 @@ func C05(tier string) {
 
 // schedDevFor / boundFor: per-system E3 bounds. PyPI builds two resolvers (2.5 ms each) per schedule, Maven makes
 // several hundred client calls per resolution; their quick tier is smaller.
-func schedDevFor(sys string, quick bool, def int) int {
-	if quick && sys == "PyPI" {
+func schedDevFor(sp *univ.Space, quick bool, def int) int {
+	if sp.Base != "empty" {
+		def-- // a template already carries five requirements
+	}
+	if quick && sp.Name == "PyPI" {
+		if sp.Base != "empty" {
+			return 0
+		}
 		return 1
 	}
 	return def
@@ -445,9 +485,6 @@ func schedDevFor(sys string, quick bool, def int) int {
 
 func boundFor(sys string, quick bool, def int) int {
 	if quick {
-		if sys == "PyPI" {
-			return 2
-		}
 		return 1
 	}
 	if sys != "NPM" && def > 2 {
@@ -492,7 +529,8 @@ func c05Replay(w string) (bool, string) {
 			n, v, _ := strings.Cut(r, "@")
 			roots = append(roots, [2]string{n, v})
 		}
-		fails, _, _ := c05Schedules(u, roots, b, nil)
+		warm := len(p) > 5 && p[5] == "true"
+		fails, _, _ := c05SchedulesW(u, roots, b, warm, nil)
 		var rel []string
 		for _, f := range fails {
 			if strings.HasPrefix(f, p[1]+":") {
@@ -522,8 +560,8 @@ func C05SchedWorker(argv []string) {
 	secs, _ := strconv.Atoi(argv[6])
 	deadline := time.Now().Add(time.Duration(secs) * time.Second)
 	var sp *univ.Space
-	for _, x := range []*univ.Space{univ.NPMSpace(), univ.MavenSpace(), univ.PyPISpace()} {
-		if x.Name == sysName {
+	for _, x := range univ.AllSpaces() {
+		if x.Name+"/"+x.Base == sysName {
 			sp = x
 		}
 	}
@@ -539,7 +577,7 @@ func C05SchedWorker(argv []string) {
 	nfail := 0
 	univ.Enumerate(sp.Slots, dev, func(picks []univ.Pick) {
 		u, ok := sp.Build(picks)
-		if !ok || len(picks) == 0 || len(u.Vers[0].Reqs) == 0 {
+		if !ok || len(u.Vers[0].Reqs) == 0 {
 			return
 		}
 		idx++
@@ -563,22 +601,24 @@ func C05SchedWorker(argv []string) {
 			if len(roots) == 3 && b > 2 {
 				b = 2
 			}
-			fails, st, outs := c05Schedules(u, roots, b, func() bool { return time.Now().After(deadline) })
-			scen++
-			s0 += st.Schedules
-			p0 += st.Points
-			deadlocks += st.Deadlocks
-			outcomes += int64(len(outs))
-			if !st.Complete {
-				complete = 0
-			}
-			if st.TooLarge {
-				tooLarge++
-			}
-			for _, f := range fails {
-				clause, _, _ := strings.Cut(f, ":")
-				nfail++
-				fmt.Fprintf(out, "F\t%s\t%s\n", strconv.Quote(core.Join("sched", clause, strconv.Itoa(b), rootsString(roots), u.Encode())), strconv.Quote(f))
+			for _, warm := range []bool{false, true} {
+				fails, st, outs := c05SchedulesW(u, roots, b, warm, func() bool { return time.Now().After(deadline) })
+				scen++
+				s0 += st.Schedules
+				p0 += st.Points
+				deadlocks += st.Deadlocks
+				outcomes += int64(len(outs))
+				if !st.Complete {
+					complete = 0
+				}
+				if st.TooLarge {
+					tooLarge++
+				}
+				for _, f := range fails {
+					clause, _, _ := strings.Cut(f, ":")
+					nfail++
+					fmt.Fprintf(out, "F\t%s\t%s\n", strconv.Quote(core.Join("sched", clause, strconv.Itoa(b), rootsString(roots), u.Encode(), strconv.FormatBool(warm))), strconv.Quote(f))
+				}
 			}
 		}
 	})
